@@ -314,6 +314,8 @@ theorem wordlist_index_of_word (W : List String) (h : W.Nodup) (i : Nat) (hi : i
       List.replicate 4 Gen.Mnemonic.BIP39_BASE ++ [Gen.Mnemonic.OLD_BASE] :=
   ⟨List.Nodup.idxOf_getElem h i hi, by decide, by decide⟩
 
+example : ["abandon", "ability", "able"].Nodup ∧ ["abandon", "ability", "able"].idxOf "able" = 2 := by decide
+
 /-- BIP85: the entropy of a derived key is HMAC-SHA512 keyed with the ASCII of "bip-entropy-from-k" -/
 theorem bip85_is_hmac (hm : Bytes → Bytes → Bytes) (key : Bytes) :
     bip85Entropy hm key = hm ("bip-entropy-from-k".toList.map fun c => UInt8.ofNat c.toNat) key := by
